@@ -83,8 +83,13 @@ TApply ==
   /\ ApplyReply(Rid, UReply(served[Rid].reply))
   /\ served[Rid].reply.key = Ev.dev
   /\ MatchMem(Ev.state) /\ MatchDisk(Ev.files)
-  /\ served' = [served EXCEPT ![Rid] = NoServedR]
+  \* what the reply shows as missing is retransmitted to the server this round synced with
+  /\ served' = [served EXCEPT ![Rid] = [mode |-> "synced", with |-> rnd[Rid].cur]]
   /\ rstat' = [rstat EXCEPT ![Rid] = "applied"] /\ UNCHANGED <<conc, sch>>
+TSend ==     \* a datagram leaves; one sent by a sync round goes to the server that round synced with
+  /\ Ev.a = "Send"
+  /\ ("rid" \in DOMAIN Ev => (Ev.rid \in RoundIds /\ served[Ev.rid].mode = "synced" /\ Ev.to = served[Ev.rid].with))
+  /\ UNCHANGED <<svars, served, rstat, conc, sch>>
 TEnd ==
   /\ Ev.a = "RoundEnd" /\ Rid \in RoundIds
   /\ Ev.panic = ""
@@ -158,7 +163,7 @@ TProbe ==    \* after the round the report loop still completes an iteration
   /\ Ev.a = "LoopProbe" /\ Ev.ok
   /\ UNCHANGED <<svars, served, rstat, conc, sch>>
 TNoise ==
-  /\ Ev.a \in {"Send", "LoopRead", "LoopDone", "ClientClose", "Setup", "DriverNote", "Resyncs"}
+  /\ Ev.a \in {"LoopRead", "LoopDone", "ClientClose", "Setup", "DriverNote", "Resyncs"}
   /\ (Ev.a = "Resyncs" => Ev.n >= 2)    \* after failed rounds the loop starts new rounds by itself
   /\ UNCHANGED <<svars, served, rstat, conc>>
   /\ sch' = IF Ev.a = "ClientClose" THEN NoSched ELSE sch
@@ -175,7 +180,7 @@ TNext ==
   /\ (IF l = DiagLine THEN PrintT(<<"DIAG", l, Ev, "cgca", cgca, "csrv", csrv, "primary", primary, "rnd", rnd, "served", served, "cdisk", cdisk,
                                     "rstat", rstat, "conc", conc, "sch", sch>>) ELSE TRUE)
   /\ (TReset \/ TFiles \/ TStart \/ TBegin \/ TPick \/ TApply \/ TEnd \/ TProbe \/ TNoise
-      \/ TLoopInit \/ TLaunch \/ TTick \/ TReturn \/ TClosing \/ TQuiesce)
+      \/ TSend \/ TLoopInit \/ TLaunch \/ TTick \/ TReturn \/ TClosing \/ TQuiesce)
   /\ UNCHANGED cvars
   /\ \A n \in RInvSel : IF l = DiagLine THEN (IF RInvByName(n) THEN TRUE ELSE PrintT(<<"DIAG invariant fails", n>>))
                         ELSE RInvByName(n)
